@@ -41,7 +41,7 @@ static int ws_canaries_ok(const unsigned char *w, long lwork, int slack)
 }
 
 /* ---------------------------------------------------------------- bases */
-static const int TUNE_E2[] = { 3, 4, 5, 2, 6, 7 };      /* small panels / supernodes: several panels and expansions on 6x6 */
+static const int TUNE_E2[] = { 3, 9, 5, 4, 10, 2, 6, 7 };      /* small panels / supernodes: several panels and expansions on 6x6 */
 static const int VALS_E2[] = { 1, 3, 2 };
 static const int CP_E2[] = { 0, 3, 1, 2 };
 static const int FEST[] = { 1, 2, 3, 5, 30 };
@@ -53,7 +53,7 @@ static void set_base(vcase *c, int base, int dev, int vals, int cp, int tune, in
 /* quick length list: every byte 1..64, then every multiple of 4 up to LMAX */
 #define LMAX_Q 3072
 #define NLEN_Q (64 + (LMAX_Q - 64) / 4)
-static long len_quick(int k) { return k < 64 ? k + 1 : 64 + 4 * (long)(k - 64 + 1); }
+static long len_quick(int k) { return k < 64 ? k + 1 : 64 + 4 * (long)(k - 64 + 1) + ((k - 64) & 3); }   /* above 64: step 4, cycling through all residues mod 4 */
 #define LMAX_T 3584
 
 /* C08 families */
@@ -66,15 +66,15 @@ static void set08Q(const int *d, vcase *c)     /* size query */
 static void set08K(const int *d, vcase *c)     /* k-th growth request fails under library allocation */
 { set_base(c, d[0], d[1], d[2], d[3], d[4], d[5], d[6]); c->lworkmode = 3; c->k = d[7] + 1; c->fest = 1; c->tune[6] = 1; }
 static const family F08Q[] = {
-    { "workspace sweep: BASE(6) x vals2 x colperm2 x tune3 x type4 x {LU,ILU} x lengths{1..64, 68..3072 step 4} x align{0,4}", 8, { 9, 2, 2, 3, 4, 2, NLEN_Q, 2 }, set08W },
+    { "workspace sweep: BASE(6) x vals2 x colperm2 x tune3 x type4 x {LU,ILU} x lengths{1..64, then step 4 up to 3072 cycling through the residues mod 4} x align{0,4}", 8, { 9, 2, 2, 3, 4, 2, NLEN_Q, 2 }, set08W },
     { "size query lwork=-1: BASE(6) x dev{0..8} x vals2 x tune3 x type4 x {LU,ILU} x Equil2 x Fact{DOFACT,SamePattern,SamePattern_SameRowPerm} x fill5", 9, { 9, 9, 2, 3, 4, 2, 2, 3, 5 }, set08Q },
     { "k-th growth request fails (library allocation, fill estimate 1): DEV_1(BASE(6)) x vals2 x colperm2 x tune3 x type4 x {LU,ILU} x k{1..14}", 8, { 9, 37, 2, 2, 3, 4, 2, 14 }, set08K },
 };
 static const family F08T[] = {
-    { "workspace sweep: BASE(6) x vals3 x colperm4 x tune6 x type4 x {LU,ILU} x every byte length 1..3584 x align{0,4}", 8, { 9, 3, 4, 6, 4, 2, LMAX_T, 2 }, set08W },
+    { "workspace sweep: BASE(6) x vals3 x colperm4 x tune8 x type4 x {LU,ILU} x every byte length 1..3584 x align{0,4}", 8, { 9, 3, 4, 8, 4, 2, LMAX_T, 2 }, set08W },
     { "workspace sweep on DEV_1(BASE(6)) x tune3 x type4 x lengths{32..4096 step 32} x align2", 6, { 9, 37, 3, 4, 128, 2 }, set08Wd },
-    { "size query lwork=-1: BASE(6) x dev{0..36} x vals3 x tune6 x type4 x {LU,ILU} x Equil2 x Fact3 x fill5", 9, { 9, 37, 3, 6, 4, 2, 2, 3, 5 }, set08Q },
-    { "k-th growth request fails: DEV_1(BASE(6)) x vals3 x colperm4 x tune6 x type4 x {LU,ILU} x k{1..20}", 8, { 9, 37, 3, 4, 6, 4, 2, 20 }, set08K },
+    { "size query lwork=-1: BASE(6) x dev{0..36} x vals3 x tune8 x type4 x {LU,ILU} x Equil2 x Fact3 x fill5", 9, { 9, 37, 3, 8, 4, 2, 2, 3, 5 }, set08Q },
+    { "k-th growth request fails: DEV_1(BASE(6)) x vals3 x colperm4 x tune8 x type4 x {LU,ILU} x k{1..20}", 8, { 9, 37, 3, 4, 8, 4, 2, 20 }, set08K },
 };
 #define NF(F) ((int)(sizeof F / sizeof *F))
 static long sz_08(int tier) { return tier ? fam_total(F08T, NF(F08T)) : fam_total(F08Q, NF(F08Q)); }
@@ -247,11 +247,11 @@ static void set07q(const int *d, vcase *c) { int e[10] = { d[0], d[1], d[2], d[3
 static void set07R(const int *d, vcase *c)     /* tall matrices through xgstrf are covered by C02; here: row storage + equilibration through the driver */
 { int e[10] = { d[0], d[1], 0, d[2], d[3], d[4], 0, d[5], d[6], 0 }; set07(e, c); c->stor = 1; c->equil = 1; c->vals = 4; }
 static const family F07Q[] = {
-    { "DEV_1(BASE(6)) x vals2 x colperm2 x tune3 x type4 x {LU,ILU} x scenario(5 fill estimates + 15 workspace lengths x align2 x prefill3) x ws-fill-estimate{1,2,3}", 9, { 9, 37, 2, 2, 3, 4, 2, NSCEN, 3 }, set07q },
+    { "DEV_1(BASE(6)), first 10 deviations x vals2 x colperm2 x tune3 x type4 x {LU,ILU} x scenario(5 fill estimates + 15 workspace lengths x align2 x prefill3) x ws-fill-estimate{1,2,3}", 9, { 9, 10, 2, 2, 3, 4, 2, NSCEN, 3 }, set07q },
 };
 static const family F07T[] = {
-    { "DEV_1(BASE(6)) x vals3 x colperm4 x tune6 x type4 x {LU,ILU} x scenario x ws-fill-estimate5 x heap-fill3", 10, { 9, 37, 3, 4, 6, 4, 2, NSCEN, 5, 3 }, set07 },
-    { "row storage + equilibration: DEV_1(BASE(6)) x colperm4 x tune6 x type4 x scenario x fill5", 7, { 9, 37, 4, 6, 4, NSCEN, 5 }, set07R },
+    { "DEV_1(BASE(6)) x vals3 x colperm4 x tune8 x type4 x {LU,ILU} x scenario x ws-fill-estimate5 x heap-fill3", 10, { 9, 37, 3, 4, 8, 4, 2, NSCEN, 5, 3 }, set07 },
+    { "row storage + equilibration: DEV_1(BASE(6)) x colperm4 x tune8 x type4 x scenario x fill5", 7, { 9, 37, 4, 8, 4, NSCEN, 5 }, set07R },
 };
 static long sz_07(int tier) { return tier ? fam_total(F07T, NF(F07T)) : fam_total(F07Q, NF(F07Q)); }
 static void dec_07(int tier, long idx, vcase *c) { if (tier) fam_decode(F07T, NF(F07T), idx, c); else fam_decode(F07Q, NF(F07Q), idx, c); }
